@@ -51,6 +51,9 @@ class Model:
     def send(self, c, data, clocks, picks):
         return self.ask('send %d %s %s %s' % (c, fmt_clocks(clocks), fmt_picks(picks), hx(data)))
 
+    def sendm(self, c, data, clocks, picks, park=0):
+        return self.ask('sendm %d %d %s %s %s' % (c, int(park), fmt_clocks(clocks), fmt_picks(picks), hx(data)))
+
     def snap(self):
         return self.ask('snap')
 
